@@ -87,6 +87,28 @@ Definition check_signed (K : keysys) (q : quote) (claimed : list N) : bool :=
       else sig_verify pk (bytes_for_signing q) (interp K (signature q))
   end.
 
+(* A PaymentQuote built in memory may carry a SystemTime BEFORE the epoch (one read from the wire cannot:
+   serde builds UNIX_EPOCH + Duration).  bytes_for_signing then panics ("Unix epoch to be in the past").
+   `tz` is the timestamp as a signed number of nanoseconds; None = panic.  The key and identity checks
+   come first, exactly as in check_is_signed_by_claimed_peer. *)
+Definition with_timestamp (q : quote) (t : N) : quote :=
+  {| content := content q; timestamp := t; qmetrics := qmetrics q; rewards_address := rewards_address q;
+     pub_key := pub_key q; signature := signature q |}.
+
+Definition bytes_for_signing_z (q : quote) (tz : Z) : option (list N) :=
+  if (tz <? 0)%Z then None else Some (bytes_for_signing (with_timestamp q (Z.to_N tz))).
+
+Definition check_signed_z (K : keysys) (q : quote) (tz : Z) (claimed : list N) : option bool :=
+  match decode_pk K (pub_key q) with
+  | None => Some false
+  | Some pk =>
+      if negb (bytes_eqb (peer_of K pk) claimed) then Some false
+      else match bytes_for_signing_z q tz with
+           | None => None
+           | Some m => Some (sig_verify pk m (interp K (signature q)))
+           end
+  end.
+
 (* ProofOfPayment *)
 Definition proof := list (list N * quote).             (* (EncodedPeerId bytes, quote) *)
 
@@ -389,3 +411,6 @@ Fixpoint agree_driver (st : driver_state) (steps : list (driver_step * option ob
       | None => true
       end && agree_driver st1 r
   end.
+
+Definition agree_check_z (K : keysys) (q : quote) (tz : Z) (claimed : list N) (r : option bool) : bool :=
+  option_eqb Bool.eqb (check_signed_z K q tz claimed) r.
